@@ -22,10 +22,14 @@ pub fn settings_menu(rich: bool) -> Vec<Setting> {
         Setting { rate: Some(100.0), ..Setting::nm() },
         Setting { rate: Some(0.01), ..Setting::nm() },
         Setting { ar: Some((-20.0, false)), cs: Some((20.0, false)), od: Some((20.0, true)), hp: Some((-20.0, true)), ..Setting::bits(settings::HD) },
+        // lazer Classic with its slider-head setting switched off: the one osu! configuration in which the mod is present
+        // but scores are judged like lazer scores
+        Setting::mods(ModSpec::Classic(Some(false))),
     ];
     if rich {
         v.push(Setting { ar: Some((20.0, true)), cs: Some((-20.0, true)), od: Some((-20.0, false)), hp: Some((20.0, false)), lazer: Some(false), ..Setting::bits(settings::RX) });
         v.push(Setting::mods(ModSpec::Classic(None)));
+        v.push(Setting { lazer: Some(false), ..Setting::mods(ModSpec::Classic(Some(true))) });
         v.push(Setting { hr_offsets: Some(true), ..Setting::bits(settings::AP | settings::SO | settings::TD) });
     }
     v
@@ -89,6 +93,7 @@ pub fn run(map: &Beatmap, setts: &[Setting], key_mods: &[ModSpec], max_steps: us
         }};
     }
     put!("bpm={:?}", map.bpm());
+    put!("suspicion={:?}", map.check_suspicion().map_err(|e| e.to_string()));
     put!("breaks={:?}", map.total_break_time());
     let n = map.hit_objects.len() as u32;
     for dst in targets(map) {
